@@ -804,14 +804,14 @@ def parse_next(toks):
             if m and els is None:
                 if env["active"] is None or m.group("a") != env["active"]:
                     raise ParseError("cannot parse the Zoops condition of next: %s" % short(cond))
-                return "NIfZoopsInactive " + block(then, indent)
+                return "NIfZoopsInactive " + block(then, indent + 2)
             m = fm("$l . information_content ( ) %cmp $r . information_content ( )", c)
             if m:
                 return "NIfInfo %s %s %s %s %s" % (pid(m.group("l")), CMPS[m.group("cmp")], pid(m.group("r")),
-                                                   block(then, indent), block(els if els is not None else [], indent))
+                                                   block(then, indent + 2), block(els if els is not None else [], indent + 2))
             m = fm("self . step - self . last_inclusion %cmp self . patience", c)
             if m and els is None:
-                return "NIfPatience %s %s" % (CMPS[m.group("cmp")], block(then, indent))
+                return "NIfPatience %s %s" % (CMPS[m.group("cmp")], block(then, indent + 2))
             raise ParseError("cannot parse statement of next: %s" % short(st))
         m = fm("let $z = self . select_holdout ( ) ;", s)
         if m:
